@@ -10,3 +10,8 @@ package io
 //@   assigns nothing
 //@ func io.LogInfo
 //@   assigns nothing
+
+// prints the message and calls os.Exit(1): never returns (trusted)
+//@ func io.ExitWithMessage
+//@   flag noreturn
+//@   assigns nothing
